@@ -49,12 +49,22 @@ def _rand_unit(rng, n):
             return [x / s for x in v]
 
 
-def sample_group(spec_name, rng, regime):
-    """list of mp values for a valid element of the named group"""
+def sample_group(spec_name, rng, regime, ang=None):
+    """list of mp values for a valid element of the named group (ang: prescribed half-angle magnitude)"""
     big = [1, 1, 1, 1e3, 1e-3][regime % 5]
     lin = lambda k: [mp.mpf(rng.uniform(-3, 3)) * big for _ in range(k)]
 
     def quat():
+        if ang is not None:
+            u = _rand_unit(rng, 3)
+            sgn = rng.choice([-1, 1])
+            return [x * ang for x in u] + [sgn * mp.sqrt(1 - ang * ang)]
+        if regime % 11 == 9 or regime % 11 == 10:   # vector part around the small-angle switch-overs (|v|^2 ~ eps)
+            mag = mp.mpf(10) ** mp.mpf(rng.uniform(-7.5, -6.2))
+            u = _rand_unit(rng, 3)
+            sgn = 1 if regime % 11 == 9 else -1
+            v = [x * mag for x in u] + [sgn * mp.sqrt(1 - mag * mag)]
+            return v
         if regime % 7 == 3:      # near identity
             v = [mp.mpf(rng.uniform(-1, 1)) * mp.mpf("1e-9") for _ in range(3)] + [mp.mpf(1)]
         elif regime % 7 == 4:    # w < 0 near -1
@@ -67,6 +77,12 @@ def sample_group(spec_name, rng, regime):
         return [x / s for x in v]
 
     def cplx():
+        if ang is not None:
+            a = ang * rng.choice([-1, 1])
+            return [mp.cos(a), mp.sin(a)]
+        if regime % 11 == 9 or regime % 11 == 10:
+            a = mp.mpf(10) ** mp.mpf(rng.uniform(-7.5, -6.2)) * rng.choice([-1, 1])
+            return [mp.cos(a), mp.sin(a)]
         if regime % 7 == 3:
             a = mp.mpf(rng.uniform(-1, 1)) * mp.mpf("1e-9")
         elif regime % 7 == 5:
@@ -92,32 +108,36 @@ def sample_group(spec_name, rng, regime):
     raise KeyError(spec_name)
 
 
-def sample_spec_group(spec, rng, regime):
+def sample_spec_group(spec, rng, regime, ang=None):
     if hasattr(spec, "elems"):
         out = []
         for e in spec.elems:
-            out += sample_spec_group(e, rng, regime)
+            out += sample_spec_group(e, rng, regime, ang)
         return out
-    return sample_group(spec.name, rng, regime)
+    return sample_group(spec.name, rng, regime, ang)
 
 
 ANG_SLOTS = {"SO2": [0], "SE2": [2], "SO3": [0, 1, 2], "SE3": [3, 4, 5], "SE_2_3": [3, 4, 5],
              "SGal3": [6, 7, 8]}
 
 
-def sample_spec_tangent(spec, rng, regime):
+def sample_spec_tangent(spec, rng, regime, ang=None):
     if hasattr(spec, "elems"):
         out = []
         for e in spec.elems:
-            out += sample_spec_tangent(e, rng, regime)
+            out += sample_spec_tangent(e, rng, regime, ang)
         return out
     ang_scale = [mp.mpf(1), mp.mpf("1e-4"), mp.mpf("3e-8"), mp.mpf(0), mp.mpf("0.9"), mp.mpf("1e-9")][regime % 6]
+    if regime % 11 == 9 or regime % 11 == 10:       # around the small-angle switch-overs
+        ang_scale = mp.mpf(10) ** mp.mpf(rng.uniform(-7.3, -6.0))
     lin_scale = [1, 1, 1e3, 1][(regime // 6) % 4]
     v = [mp.mpf(rng.uniform(-1, 1)) * lin_scale for _ in range(spec.dof)]
     slots = ANG_SLOTS.get(spec.name, [])
     if slots:
         u = _rand_unit(rng, len(slots)) if len(slots) > 1 else [mp.mpf(rng.choice([-1, 1]))]
         mag = ang_scale * (mp.mpf(rng.uniform(0.3, 3.0)) if regime % 6 != 4 else mp.mpf(rng.uniform(0.5, 3.4)))
+        if ang is not None:
+            mag = ang
         for s, ui in zip(slots, u):
             v[s] = ui * mag
     return v
@@ -165,6 +185,23 @@ class PathCtx:
                     return False
         return True
 
+    def feasible(self, timeout_ms=3000):
+        """'no' (proved infeasible: nf or z3 unsat), 'yes' (z3 sat) or 'maybe'"""
+        if self._feasible is False or not self.nf_feasible():
+            self._feasible = False
+            return "no"
+        if not self.path.decisions:
+            return "yes"
+        try:
+            r, model, dt = self.z3_feasible(timeout_ms)
+        except Exception:
+            return "maybe"
+        self.z3_time = getattr(self, "z3_time", 0.0) + dt
+        if r == "unsat":
+            self._feasible = False
+            return "no"
+        return "yes" if r == "sat" else "maybe"
+
     def z3_feasible(self, timeout_ms=20000):
         z = smt.Z3Ctx(self.alg, timeout_ms)
         cs = z.base_constraints(self.extra_facts_z3(z)) + z.decisions(self.path)
@@ -175,13 +212,13 @@ class PathCtx:
         return [f(z) for f in self.extra_facts]
 
     # ---- sampling of inputs that follow this path
-    def draw(self, rng, regime):
+    def draw(self, rng, regime, ang=None):
         vals = {}
         for i in self.inputs:
             if i.kind == "G":
-                v = sample_spec_group(i.spec, rng, regime)
+                v = sample_spec_group(i.spec, rng, regime, ang)
             elif i.kind == "T":
-                v = sample_spec_tangent(i.spec, rng, regime)
+                v = sample_spec_tangent(i.spec, rng, regime, ang)
             else:
                 v = [mp.mpf(rng.uniform(-2, 2)) for _ in range(i.size())]
             for n, x in zip(i.names(), v):
@@ -202,8 +239,99 @@ class PathCtx:
                 out.append(vals)
                 if len(out) >= want:
                     break
+        if not out:
+            out = self.boundary_samples(want=2)
+        if not out and self.path.decisions:
+            try:
+                r, model, dt = self.z3_feasible(5000)
+            except Exception:
+                r, model = "unknown", None
+            if r == "sat" and model:
+                vals = self.project_model(model)
+                if vals is not None and numeval.DagEval(self.path, vals).follows_path():
+                    out.append(vals)
         self._samples = out
         return out
+
+    def boundary_samples(self, want=2):
+        """inputs lying exactly on a threshold: for a pair of decisions not(a<b), not(b<a) (i.e. a == b)
+        bisect the angle magnitude of a random input until a - b changes sign"""
+        ds = self.path.decisions
+        pairs = []
+        for d in ds:
+            if d.rel == "lt" and not d.val:
+                for e in ds:
+                    if e.rel == "lt" and not e.val and e.a == d.b and e.b == d.a and (e.a, e.b) not in pairs:
+                        pairs.append((d.a, d.b))
+            if d.rel == "eq" and d.val:
+                pairs.append((d.a, d.b))
+        if not pairs:
+            return []
+        a_id, b_id = pairs[0]
+        out = []
+        for k in range(12):
+            seed = self.seed * 104729 + k
+
+            def f(s):
+                rng = random.Random(seed)
+                vals = self.draw(rng, 0, ang=s)
+                ev = numeval.DagEval(self.path, vals)
+                return ev.node(a_id) - ev.node(b_id), vals
+
+            grid = [mp.mpf(10) ** (mp.mpf(-9) + mp.mpf(j) / 8) for j in range(0, 57)]
+            prev = None
+            for s in grid:
+                try:
+                    fs, _ = f(s)
+                except (ZeroDivisionError, ValueError):
+                    prev = None
+                    continue
+                if prev is not None and (prev[1] < 0) != (fs < 0):
+                    lo, hi, flo = prev[0], s, prev[1]
+                    for _ in range(220):
+                        mid = (lo + hi) / 2
+                        fm, _ = f(mid)
+                        if (fm < 0) == (flo < 0):
+                            lo, flo = mid, fm
+                        else:
+                            hi = mid
+                    fm, vals = f((lo + hi) / 2)
+                    if numeval.DagEval(self.path, vals).follows_path(tol=mp.mpf(10) ** (-45)):
+                        out.append(vals)
+                    break
+                prev = (s, fs)
+            if len(out) >= want:
+                break
+        return out
+
+    def project_model(self, model):
+        """turn a z3 model into an input satisfying the precondition exactly (re-normalise rotation parts)"""
+        vals = {}
+        for i in self.inputs:
+            names = i.names()
+            xs = []
+            for n in names:
+                m = model.get(n)
+                xs.append(mp.mpf(m.numerator) / mp.mpf(m.denominator) if m is not None else mp.mpf(0))
+            if i.kind == "G":
+                from contracts import taylor
+                rot = taylor._rot_names(i.spec, names)
+                groups = {}
+                # normalise each unit-norm block (blocks are contiguous runs of rotation names)
+                run = []
+                for k, n in enumerate(names + [None]):
+                    if n in rot:
+                        run.append(k)
+                    elif run:
+                        s = mp.sqrt(sum(xs[j] ** 2 for j in run))
+                        if s == 0:
+                            return None
+                        for j in run:
+                            xs[j] = xs[j] / s
+                        run = []
+            for n, x in zip(names, xs):
+                vals[n] = x
+        return vals
 
     # ---- obligations
     def eq(self, name, lhs, rhs, kind="ID", fn=None, numeric_env=None):
@@ -247,6 +375,16 @@ class PathCtx:
             # path proven infeasible: the obligation is vacuous on it
             self.rep.ok(oname, kind, "nf(path infeasible)", dt)
             return
+        tinfo = None
+        tau = getattr(self, "taylor_tau", None)
+        if tau:
+            ok, tinfo = self.taylor_try(self, res, tau)
+            if not ok and tinfo.get("taylor") == "path has no small-ball condition":
+                tau = None     # generic path: exact obligation
+            if ok:
+                self.rep.ok(oname, "TAYLOR", "interval-bound", dt,
+                            detail={"path": self.path.key, "tolerance": tau, "bound": tinfo})
+                return
         samples = self.samples()
         worst = None
         for vals in samples:
@@ -255,6 +393,10 @@ class PathCtx:
                 r = numeval.poly_value(alg, res, gv)
             except (ZeroDivisionError, ValueError):
                 continue
+            if tau:
+                # tolerance relative to the size of the linear components of this input
+                sc = max([mp.mpf(1)] + [abs(x) for x in vals.values()])
+                r = r / sc
             if worst is None or abs(r) > abs(worst[0]):
                 worst = (r, vals)
         resid = str(res)
@@ -262,6 +404,15 @@ class PathCtx:
             resid = resid[:600] + "...(%d terms)" % len(res)
         detail = {"path": self.path.key, "decisions": len(self.path.decisions),
                   "nonzero_normal_form": resid, "generators": alg.describe()}
+        if tau:
+            detail["taylor"] = tinfo
+            detail["tolerance"] = tau
+            if worst is not None and abs(worst[0]) <= tau:
+                self.rep.standin(oname, "TAYLOR", "mpmath-sampled",
+                                 {"path": self.path.key, "samples": len(samples), "tolerance": tau,
+                                  "max_relative_residual": mp.nstr(abs(worst[0]), 5),
+                                  "why_not_proved": tinfo})
+                return
         if worst is not None and abs(worst[0]) > TOL_EXACT:
             detail["numeric_residual"] = mp.nstr(worst[0], 8)
             replay = self.make_replay(worst[1])
@@ -270,6 +421,8 @@ class PathCtx:
             return
         if worst is not None:
             # identity holds numerically to 1e-30 on sampled points: normal form incomplete
+            if os.environ.get("VERIF_DEBUG"):
+                print("DEBUG", oname, resid, alg.describe())
             self.rep.undecide(oname, kind, "nf", "non-zero remainder but numerically zero on %d samples "
                               "(normal form incomplete)" % len(samples))
             return
@@ -279,10 +432,71 @@ class PathCtx:
             self._feasible = False
             self.rep.ok(oname, kind, "z3(path infeasible)", zdt)
             return
-        detail["path_feasibility"] = r
-        replay = {"failing_input_reproduced": False, "scenario": self.path.scenario,
-                  "note": "no sampled input follows this path; z3 says %s" % r}
-        self.rep.fail(oname, kind, "nf", detail, replay, dt)
+        if os.environ.get("VERIF_DEBUG"):
+            print("DEBUG", oname, resid, alg.describe())
+        self.rep.undecide(oname, kind, "nf", "non-zero remainder, no sampled input follows the path, z3 feasibility %s" % r)
+
+    # ---- derivative obligations
+    def directions(self, wrt):
+        """list of (k, direction dict) for input prefix `wrt`: unit tangent directions
+        lifted to coefficient space for group inputs, plain unit vectors otherwise"""
+        inp = [i for i in self.inputs if i.prefix == wrt][0]
+        R = self.alg.R
+        out = []
+        if inp.kind == "G":
+            n = inp.spec.dof
+            for k in range(n):
+                d = [R.zero] * n
+                d[k] = R.one
+                cd = inp.spec.lift(self.E[wrt], d)
+                out.append((k, dict(zip(inp.names(), cd))))
+        else:
+            for k, nm in enumerate(inp.names()):
+                out.append((k, {nm: R.one}))
+        return out
+
+    def D(self, direction, arr):
+        Df = self.alg.make_diff(direction)
+        A = np.asarray(arr, dtype=object)
+        out = np.empty(A.shape, dtype=object)
+        for idx in np.ndindex(A.shape):
+            out[idx] = Df(A[idx])
+        return out
+
+    def deriv_group(self, name, out_coeffs, J, wrt, out_spec=None, kind="DERIV"):
+        """J is the right-Jacobian of (wrt -> group-valued out):
+           D T(out)[dir_k] == T(out) * hat(J e_k)   for every tangent basis direction k"""
+        sp = out_spec or self.spec
+        Tout = sp.T(out_coeffs)
+        ok = True
+        for k, direction in self.directions(wrt):
+            lhs = self.D(direction, Tout)
+            rhs = np.dot(Tout, sp.hat(list(J[:, k])))
+            ok &= self.eq("%s/d%s%d" % (name, wrt, k), lhs, rhs, kind)
+        return ok
+
+    def deriv_vec(self, name, out_vec, J, wrt, kind="DERIV"):
+        """J is the Jacobian of (wrt -> vector-valued out): D out[dir_k] == J e_k"""
+        ok = True
+        ov = np.asarray(out_vec, dtype=object).reshape(-1)
+        for k, direction in self.directions(wrt):
+            lhs = self.D(direction, ov)
+            ok &= self.eq("%s/d%s%d" % (name, wrt, k), lhs, np.asarray(J[:, k], dtype=object).reshape(-1), kind)
+        return ok
+
+    def lift_is_sound(self, name, wrt):
+        """the infinitesimal lift used above is itself an obligation:
+           D T(c)[lift(c, e_k)] == T(c) * hat(e_k)"""
+        inp = [i for i in self.inputs if i.prefix == wrt][0]
+        sp = inp.spec
+        Tc = sp.T(self.E[wrt])
+        R = self.alg.R
+        ok = True
+        for k, direction in self.directions(wrt):
+            d = [R.zero] * sp.dof
+            d[k] = R.one
+            ok &= self.eq("%s/lift%d" % (name, k), self.D(direction, Tc), np.dot(Tc, sp.hat(d)), "DERIV")
+        return ok
 
     def must_not_throw(self, name="no_throw", kind="SAFE"):
         """a path that throws must be infeasible under the precondition"""
